@@ -445,4 +445,6 @@ pub fn run(e: &Engine) {
         render,
         check_case,
     );
+    e.fuzz_corpus("c09_sched");
+    e.fuzz_campaign("c09_sched", 500000);
 }
